@@ -239,3 +239,39 @@ func VerifC04ManyBackends(n int) {
 	m = lb.metricsCollector.GetMetrics()
 	verifrt.Assert(m.BackendMetrics[b.Name].IsHealthy, "and is reported healthy again")
 }
+
+// VerifC04ReAdd: a backend is removed through the admin API after some failed
+// responses and a backend of the same name is added again (a redeploy at a new
+// address): it is a new backend, and is ejected only after unhealthy_threshold
+// failed responses of its own.
+func VerifC04ReAdd() {
+	lb := verifBareLB(0)
+	lb.metricsCollector = metrics.NewMetricsCollector()
+	thr := verifrt.IntRange("unhealthy_threshold", 2, 3)
+	lb.healthChecks.passiveEnabled = true
+	lb.healthChecks.passiveThreshold = thr
+	lb.healthChecks.passiveTimeout = time.Minute
+	lb.AddBackend(config.BackendConfig{Name: "b1", Address: "http://127.0.0.1:8081"})
+	lb.AddBackend(config.BackendConfig{Name: "b2", Address: "http://127.0.0.1:8082"})
+	r := verifRequest("10.1.2.3:4711")
+	old := lb.strategy.GetBackends()[0]
+	before := verifrt.IntRange("failedResponsesBeforeTheRemove", 0, thr-1)
+	for i := 0; i < before; i++ {
+		lb.recordRequestMetrics(old, 500, verifrt.Now(), r)
+	}
+	verifrt.Assert(old.IsHealthy, "fewer than unhealthy_threshold failed responses do not eject")
+	lb.RemoveBackend("b1")
+	lb.AddBackend(config.BackendConfig{Name: "b1", Address: "http://127.0.0.1:9091"})
+	var fresh *Backend
+	for _, b := range lb.strategy.GetBackends() {
+		if b.Name == "b1" {
+			fresh = b
+		}
+	}
+	verifrt.Assert(fresh != nil && fresh != old, "the re-added backend is a new backend")
+	after := verifrt.IntRange("failedResponsesOfTheNewBackend", 1, thr)
+	for i := 0; i < after; i++ {
+		lb.recordRequestMetrics(fresh, 500, verifrt.Now(), r)
+	}
+	verifrt.Assert(fresh.IsHealthy == (after < thr), "a backend added under a name that was used before is ejected after exactly unhealthy_threshold failed responses of its own")
+}
